@@ -400,7 +400,7 @@ class ConfocalImage(BaseScan, TiffExport):
         # Try to get the pixel time
         try:
             pixel_time_seconds = self.pixel_time_seconds
-        except NotImplementedError:
+        except (NotImplementedError, IndexError):  # IndexError: a single pixel along the fast axis
             warnings.warn(
                 f"Pixel times are not defined for this {self.__class__.__name__}. "
                 "The corresponding metadata in the output file is set to `None`."
